@@ -322,11 +322,17 @@ def run(ctx):
             cnt.hit('search:mutant')
 
     # ---- (c) libtool archives
+    def random_dlname(r):
+        # every character a shared-object name may be built from: letters, digits, '_', '-', '.', '+'
+        alphabet = 'abzABZ059_-.+'
+        return ''.join(r.choice(alphabet) for _ in range(r.randint(1, 12)))
+
     n_la = ctx.n(600, 20000)
     datas = [c['data'] for c in corpus if c.get('kind') == 'dlname']
     while len(datas) < n_la:
         nm = rng.choice(['libfoo.so.0', 'libfoo-1.0.so.0', 'a/libx.so', 'libz.so+', "x'y", '', 'lib foo', 'lib[x]^_`.so',
-                         'café.so'])
+                         'café.so', 'libgst_plugin.so.0', 'libfoo_bar-2.0.so.3', 'libstdc++.so.6', '_lib.so', 'LIBX_Y.DLL',
+                         'lib-x_.so.1.2.3', 'libZ9_z0-A.so', random_dlname(rng)])
         pieces = ["# libfoo.la - a libtool library file\n", "dlname='%s'\n" % nm, "library_names='x y z'\n",
                   "old_library='libfoo.a'\n", " dlname='%s'\n" % rng.choice(['second.so', nm]),
                   "dlname='%s'" % nm, "dlname=%s\n" % nm, "libdir='/usr/lib'\n", "dlname=''\n", "xdlname='q.so'\n"]
